@@ -248,6 +248,9 @@ pub fn drive(a: &Args) {
         // second pass a large one
         let cycle = run as usize / kinds.len();
         let cap = if kind.ends_with("-nb") && kind.starts_with('b') && cycle % 2 == 0 { [1usize, 5, 16][cycle / 2 % 3] } else { cap };
+        // behind a queuing wrapper the buffered sink gets a capacity that really buffers (what flush / stats delegation does to
+        // buffered lines is the point of these runs)
+        let cap = if kind.starts_with("q-") { [64usize, 512, 40][cycle % 3] } else { cap };
         let buffered = kind.starts_with('b') || kind.starts_with("q-");
         let nonblock = kind.ends_with("-nb");
         let mut weak: Option<std::sync::Weak<BufferedUdpMetricSink>> = None;
@@ -443,7 +446,19 @@ pub fn drive(a: &Args) {
                 }
             }
             if drain_now && kind != "spy" {
-                evs.push(stats_ev(&sink.as_ref().unwrap().stats()));
+                let st = stats_ev(&sink.as_ref().unwrap().stats());
+                // reading the statistics must not touch the socket: a write attempt made by stats() itself (for example a
+                // wrapper that flushes the wrapped sink first) is recorded where it happened - outside emit / flush / drop
+                let extra: Vec<usize> = take_hooks().into_iter().filter_map(|h| if let Hk::Attempt(_, len) = h { Some(len) } else { None }).collect();
+                if !extra.is_empty() {
+                    for len in &extra {
+                        outstanding.push_back(Pending { ix: evs.len(), len: *len });
+                        evs.push(json!(null));
+                    }
+                    let got = wire.drain(extra.len(), Duration::from_millis(500));
+                    stray += resolve(&mut evs, &mut outstanding, got, errkind).len();
+                }
+                evs.push(st);
             }
         }
         let got = wire.drain(0, Duration::from_millis(20));
